@@ -3,4 +3,69 @@ import SigV4.Model.Keys
 
 namespace SigV4
 
+/-! ### HMAC key block -/
+
+theorem hmacKeyBlock_zero_pad (H : Bytes → Bytes) (k : Bytes) (z : Nat) (h : k.length + z ≤ 64) :
+    hmacKeyBlock H (k ++ List.replicate z 0) = hmacKeyBlock H k := by
+  have h1 : ¬ (k ++ List.replicate z (0 : UInt8)).length > 64 := by
+    simp only [List.length_append, List.length_replicate]; omega
+  have h2 : ¬ k.length > 64 := by omega
+  have e : z + (64 - (k.length + z)) = 64 - k.length := by omega
+  simp only [hmacKeyBlock, if_neg h1, if_neg h2]
+  rw [List.append_assoc, List.length_append, List.length_replicate,
+    List.replicate_append_replicate, e]
+
+/-! ### `secretFromStr` -/
+
+theorem AWS4_length : AWS4.length = 4 := rfl
+
+theorem secretFromStr_ok_iff (M : Nat) (s : Bytes) (k : SecretKey) :
+    secretFromStr M s = .ok k ↔
+      s.length + 4 ≤ M ∧
+        k = { buf := AWS4 ++ s ++ List.replicate (M - 4 - s.length) 0, len := s.length + 4 } := by
+  unfold secretFromStr
+  split
+  · rename_i hc
+    constructor
+    · intro h; cases h
+    · rintro ⟨h, _⟩; omega
+  · rename_i hc
+    constructor
+    · intro h
+      injection h with h
+      exact ⟨by omega, h.symm⟩
+    · rintro ⟨_, rfl⟩; rfl
+
+/-! ### Decimal digits -/
+
+theorem digitByte_toNat (n : Int) : (digitByte n).toNat = 48 + (n % 10).toNat := by
+  unfold digitByte
+  apply UInt8.toNat_ofNat_of_lt'
+  show 48 + (n % 10).toNat < 256
+  omega
+
+theorem isDigit_digitByte (n : Int) : isDigit (digitByte n) = true := by
+  have h := digitByte_toNat n
+  unfold isDigit
+  simp only [Bool.and_eq_true, decide_eq_true_eq, UInt8.le_iff_toNat_le]
+  have : (0x30 : UInt8).toNat = 48 := rfl
+  have : (0x39 : UInt8).toNat = 57 := rfl
+  omega
+
+theorem digitVal_digitByte (n : Int) : digitVal (digitByte n) = (n % 10).toNat := by
+  have h := digitByte_toNat n
+  unfold digitVal
+  have h30 : (0x30 : UInt8).toNat = 48 := rfl
+  rw [UInt8.toNat_sub_of_le _ _ (by rw [UInt8.le_iff_toNat_le]; omega)]
+  omega
+
+theorem pad2_val (n : Int) (h0 : 0 ≤ n) (h1 : n ≤ 99) :
+    (n / 10 % 10).toNat * 10 + (n % 10).toNat = n.toNat := by
+  omega
+
+theorem pad4_val (n : Int) (h0 : 0 ≤ n) (h1 : n ≤ 9999) :
+    (((n / 1000 % 10).toNat * 10 + (n / 100 % 10).toNat) * 10 + (n / 10 % 10).toNat) * 10
+      + (n % 10).toNat = n.toNat := by
+  omega
+
 end SigV4
